@@ -78,6 +78,8 @@ pub struct Dump {
     pub n_eq_pairs: usize,
     pub eq_panics: usize,
     pub regex_nodes: Vec<(u64, Matchable)>,
+    pub dangling: Vec<String>,
+    pub brackets_closed: bool,
 }
 
 /// Walk the grammar reachable from FileSegment and print it as a Gallina `grammar`.
@@ -245,9 +247,38 @@ pub fn dump_grammar(dialect_name: &str, cfg: &FluffConfig) -> Dump {
         k(SyntaxKind::Implicit),
         noncode_id
     );
+    // closure obligations (C14, third sentence) on the dumped graph
+    let mut dangling: Vec<(u64, String)> = vec![];
+    for m in &g.nodes {
+        let me = g.ids[&m.verif_ptr()];
+        match m.verif_inner() {
+            MatchableTraitImpl::Ref(r) if lookup(d, r.verif_reference()).is_none() => dangling.push((me, r.verif_reference().to_string())),
+            MatchableTraitImpl::Bracketed(b) => {
+                if let Some((_, sref, eref, _)) = d.bracket_sets(b.bracket_pairs_set).into_iter().find(|(ty, _, _, _)| *ty == b.bracket_type) {
+                    if lookup(d, sref).is_none() || lookup(d, eref).is_none() {
+                        dangling.push((me, format!("bracket {}:{}", sref, eref)));
+                    }
+                }
+            }
+            _ => {}
+        }
+    }
+    dangling.sort();
+    let brackets_closed = root_id.is_some() && brackets.iter().all(|(_, s, e, _)| s.is_some() && e.is_some());
+    let _ = writeln!(text, "From Sq Require Import Pem.Proofs.\nFrom Coq Require Import FMapPositive.");
+    if dangling.is_empty() && brackets_closed {
+        let _ = writeln!(text, "Theorem pem_closed : pem_closed_b g = true.\nProof. vm_compute. reflexivity. Qed.");
+        let _ = writeln!(text, "Theorem pem_never_dangling : forall toks rx fuel s e p, parse_root g toks rx fuel s e = RPanic p -> is_dang p = false.\nProof. exact (pem_closed_never_dangling g pem_closed). Qed.");
+    } else {
+        let _ = writeln!(text, "(* dangling references: {} *)", dangling.iter().map(|(i, n)| format!("{}={}", i, n)).collect::<Vec<_>>().join(", "));
+        let _ = writeln!(text, "Definition pem_dangling_ids : list N := {}.", g_ids(&dangling.iter().map(|(i, _)| *i).collect::<Vec<_>>()));
+        let _ = writeln!(text, "Theorem pem_dangling_exact : forallb (fun p => Bool.eqb (node_dangling (snd p)) (memN (Pos.pred_N (fst p)) pem_dangling_ids)) (PositiveMap.elements (g_nodes g)) = true.\nProof. vm_compute. reflexivity. Qed.");
+        let _ = writeln!(text, "Theorem pem_dangling_only_listed : forall toks rx fuel s e r, parse_root g toks rx fuel s e = RPanic (PDangling r) -> dangling_b g r = true.\nProof. exact (pem_dangling_sound g). Qed.");
+    }
+    let dangling_names: Vec<String> = dangling.iter().map(|(_, n)| n.clone()).collect();
     let dn = dialect_name;
     let _ = writeln!(text, "Definition case_t_pem_{dn} : Type := case_t.\nDefinition check_pem_{dn} := check_with g.\nDefinition model_pem_{dn} := run g.");
-    Dump { text, n_nodes: lines.len(), n_eq_pairs: eq_pairs.len(), eq_panics, regex_nodes }
+    Dump { text, n_nodes: lines.len(), n_eq_pairs: eq_pairs.len(), eq_panics, regex_nodes, dangling: dangling_names, brackets_closed }
 }
 
 fn any_d(g: &mut Graph, a: &sqruff_lib_core::parser::grammar::anyof::AnyNumberOf, work: &mut Vec<Matchable>, termlike: &mut BTreeSet<u64>) -> String {
@@ -394,7 +425,7 @@ pub fn main(args: &Args) {
         let cfg = FluffConfig::from_source(&format!("[sqruff]\ndialect = {}\n", d), None);
         let dump = dump_grammar(&d, &cfg);
         std::fs::write(&args.out, &dump.text).unwrap();
-        eprintln!("{}: {} nodes, {} eq pairs, {} eq panics, {} regex nodes", d, dump.n_nodes, dump.n_eq_pairs, dump.eq_panics, dump.regex_nodes.len());
+        eprintln!("{}", json!({"dialect": d, "nodes": dump.n_nodes, "eq_pairs": dump.n_eq_pairs, "eq_panics": dump.eq_panics, "regex_nodes": dump.regex_nodes.len(), "dangling": dump.dangling, "brackets_closed": dump.brackets_closed}));
         return;
     }
     let mut out = Out::new(&args.out);
@@ -410,7 +441,7 @@ pub fn main(args: &Args) {
         let snippets: Vec<String> = rule_snippets().into_iter().map(|(_, s)| s).filter(|s| s.len() <= max_tokens_chars && !s.contains("{{") && !s.contains("{%")).collect();
         let corp = corpus();
         for d in &dialects {
-            let fixed = ["SELECT 1\n", "SELECT a, b FROM t WHERE a = 1\n", "select a from t1 join t2 on t1.x = t2.x\n", "SELECT (a + b) * c AS d FROM (SELECT 1) AS s\n", "SELECT a FROM\n", "SELECT 1 +\n", ")\n", "INSERT INTO t (a) VALUES (1), (2)\n", "SELECT CASE WHEN a THEN 1 ELSE 2 END FROM t -- c\n"];
+            let fixed = ["SELECT 1\n", "SELECT a, b FROM t WHERE a = 1\n", "select a from t1 join t2 on t1.x = t2.x\n", "SELECT (a + b) * c AS d FROM (SELECT 1) AS s\n", "SELECT a FROM\n", "SELECT 1 +\n", ")\n", "INSERT INTO t (a) VALUES (1), (2)\n", "SELECT CASE WHEN a THEN 1 ELSE 2 END FROM t -- c\n", "CREATE TABLE t (a int)\n", "SELECT a FROM t WHERE (b = 1 AND (c IN (1, 2))\n", "SELECT [1, 2] FROM t\n", "UPDATE t SET a = 1 WHERE b = 2;\nDELETE FROM t;\n"];
             for f in fixed {
                 items.push(Item { dialect: d.clone(), cls: "fixed", sql: f.to_string() });
             }
